@@ -11,6 +11,10 @@ def _count(n):
 
 
 def _cls(r):
+    if r["op"] == "cycle":
+        ch = r["exp"].get("v") if isinstance(r["exp"], dict) else None
+        n = len(ch.get("kids", {})) if isinstance(ch, dict) else 0
+        return "cycle/%s/%s" % (r["edit"], "changes" if n else "nothing")
     if r["op"] == "remove":
         a, b = _count(r["M"]), _count(r["exp"]["v"])
         return "remove/" + ("none" if a == b else ("all" if b <= 1 else "some"))
@@ -20,12 +24,17 @@ def _cls(r):
 
 P = {
     "dir": "quill",
-    "mc": [{"module": "MC_Dummy", "cfg": "MC_Dummy.cfg"}],
+    "mc": [{"module": "MC_Dummy", "cfg": "MC_Dummy.cfg"},
+           # beyond the listed property: the edit cycle (remove_dummy -> enigma dir -> read -> diff -> insert_dummy) as composed by
+           # src/main.rs, see spec/system/EditCycle.tla; the law Faithful is an invariant of this model, the law NoOp is checked by
+           # MC_EditCycle_design.cfg only (not registered: the composition as coded violates it for nested placeholder classes, DESIGN.md 9.5)
+           {"module": "MC_EditCycle", "cfg": "MC_EditCycle.cfg", "dir": "system", "trace": False}],
     "trace": {"module": "Trace_Dummy", "cfg": "Trace_Dummy.cfg"},
     "trace_s2i": 300,
     "i2s_n": {"quick": 300, "thorough": 3000},
     "classify_vec": _cls,
-    "required_classes": ["remove/none", "remove/some", "remove/all", "insert/none", "insert/some", "insert/all"],
+    "required_classes": ["remove/none", "remove/some", "remove/all", "insert/none", "insert/some", "insert/all",
+                         "cycle/none/nothing", "cycle/none/changes", "cycle/rename-outer/changes", "cycle/name-field/changes", "cycle/unname-field/changes", "cycle/add-class/nothing"],
     "level_text": "remove_dummy is specified operationally (nested retain closures, children first) and declaratively from the documented rules (an entry is removed iff its name in the chosen namespace is a placeholder of its kind - f_, m_/<init>/<clinit>, p_, C_/net/minecraft/unmapped/C_ as a prefix -, it carries no comment and all its children are removed; all other entries unchanged; idempotent; never removed with a retained child); the diff-side insert_dummy likewise (removal -> edit back to source name / p_<index> / simple inner name, additions of fields and parameters discarded, additions of methods and classes only kept with remaining children, nodes that change nothing and have no children dropped, idempotent). TLC checks operational = declarative on the exhaustive truth table of names (absent, placeholder, contains the prefix, ends with it, real, <init>/<clinit>, both class prefixes) x comment x children at depth class > method > parameter and class > field, with the chosen namespace last of 2 and of 3, and every action x comment action x children on the diff side for class keys K, A$B, p/A$B$1. Every case is replayed through the real functions; random larger trees with placeholder-like names and real diffs are judged by TLC.",
     "level_note": "Trusted: TLC string operators, projection of mapping and diff trees (proj_quill.rs).",
     "assumptions": ["TLC/SANY/CommunityModules", "harness projection (proj_quill.rs)"],
